@@ -77,6 +77,11 @@ def gen_cases(sd, tr):
     for c in range(nch):
         ln = 2 + c % 4; dims = [exts[g.next() % 5] for _ in range(ln + 1)]
         cases.append({'k': 'C', 'op': ASSIGN[c % 3], 'dims': dims, 'ty': 'double' if c % 2 else 'float', 's': g.next() % 10000, 'exact': True, 'tmpl': 'chain%d' % ln})
+    # rectangular operands of trans(): every assignment operator with the transpose of a non-square tensor / expression
+    for (p_, q_) in [(2, 3), (3, 5), (5, 2), (4, 7), (9, 4)]:
+        for oi, op in enumerate(ASSIGN):
+            for form in (0, 1):
+                cases.append({'k': 'RT', 'op': op, 'P': p_, 'Q': q_, 'form': form, 'ty': 'double' if (p_ + oi + form) % 2 else 'float', 's': g.next() % 10000, 'exact': op != '/=', 'tmpl': 'rect-trans%d' % form})
     for i, c in enumerate(cases): c['id'] = i
     return cases
 
@@ -100,6 +105,15 @@ def case_body(c):
         L.append('  Tensor<T,%d,%d> R = %s; Tensor<T,%d,%d> De = D0; De %s R;' % (d[0], d[-1], ref, d[0], d[-1], c['op']))
         L.append('  vh_line("L", id, D.data(), D.size()); vh_line("E", id, De.data(), De.size()); vh_line("R", id, R.data(), R.size()); vh_line("O", id, D0.data(), D0.size());')
         return '\n'.join(L)
+    if c['k'] == 'RT':
+        P, Q = c['P'], c['Q']; arg = 'A' if c['form'] == 0 else '(A + B)'
+        if c['op'] == '/=': arg = '(abs(%s) + (T)1)' % arg
+        return '''  typedef %s T; const long id = %d;
+  Tensor<T,%d,%d> A, B; vh_fill(A.data(), %d, %d, -3, 3); vh_fill(B.data(), %d, %d, -2, 4);
+  Tensor<T,%d,%d> D0; vh_fill(D0.data(), %d, %d, 1, 5); Tensor<T,%d,%d> D = D0; D %s trans(%s);
+  Tensor<T,%d,%d> R = transpose(EV(%s)); Tensor<T,%d,%d> De = D0; De %s R;
+  vh_line("L", id, D.data(), D.size()); vh_line("E", id, De.data(), De.size()); vh_line("R", id, R.data(), R.size()); vh_line("O", id, D0.data(), D0.size());''' % (
+            c['ty'], c['id'], P, Q, P * Q, c['s'], P * Q, c['s'] + 1, Q, P, P * Q, c['s'] + 2, Q, P, c['op'], arg, Q, P, arg, Q, P, c['op'])
     n = c['n']
     return '''  typedef %s T; const long id = %d; constexpr size_t n = %d;
   Tensor<T,n,n> A, B, C, X, Y, D0; fill_int(A, %d, -3, 3); fill_int(B, %d, -3, 3); fill_int(C, %d, -2, 4); fill_dd(X, %d); fill_dd(Y, %d); fill_int(D0, %d, 1, 5);
@@ -172,7 +186,8 @@ def main():
                 key = (c['tmpl'], c['op'], c.get('lazy', str(c.get('dims'))), cfg.name)
                 if key not in groups: groups[key] = (c, cfg, bad, Lz, Eg)
     for key, (c, cfg, bad, Lz, Eg) in sorted(groups.items(), key=lambda kv: str(kv[0])):
-        what = ('D %s %s' % (c['op'], c['lazy'])) if c['k'] == 'T' else ('D %s chain of %d products, extents %s' % (c['op'], len(c['dims']) - 1, c['dims']))
+        what = (('D %s %s' % (c['op'], c['lazy'])) if c['k'] == 'T' else ('D(%dx%d) %s trans(%s %dx%d)' % (c['Q'], c['P'], c['op'], 'A' if c['form'] == 0 else 'A + B', c['P'], c['Q'])) if c['k'] == 'RT'
+                else ('D %s chain of %d products, extents %s' % (c['op'], len(c['dims']) - 1, c['dims'])))
         rep.violation('%s (%s, n=%s) under %s: lazy differs from eager at element %d: %s' % (what, c['ty'], c.get('n', '-'), cfg.name, bad[0], bad[1]),
                       {'case': c, 'cfg': cfg.name, 'lazy_result': [str(v) for v in Lz], 'eager_result': [str(v) for v in Eg], 'compile_cmd': ' '.join(cfg.cmd('t.cpp', 't.exe')), 'program': cpp_source([c])},
                       key='%s:%s:%s:%s' % (c['tmpl'], c['op'], c['ty'], cfg.name))
@@ -183,7 +198,7 @@ def main():
                     'rule': '%d expression templates (one and two evaluation-requiring operands among %%, inv, trans, ctrans, cof, adj, solve, det, trace, norm and nested combinations; the destination occurring elementwise as D, D*D, D+D, sqrt(abs(D)), D*A, -D, 2*D, D-A, abs(D), ...) x five assignment operators x sizes 2..5(8) x float/double; product chains of 2..5 factors with extents from {1,2,3,5,8}; the lazy form and the eager form (every lazy operator replaced by the evaluating function on evaluated operands) run in the same binary; integer-valued operands: exact comparison when every intermediate value is an integer, 1024*eps*scale otherwise' % len(TEMPLATES),
                     'samples': [cases[0], cases[len(cases) // 2], cases[-1]], 'configurations': [c.name for c in cfgs], 'distribution': dist,
                     'programs_generated': len(cases), 'programs_rejected_by_the_compiler_(not_judged)': len(rejected), 'rejection_kinds': rej_kinds,
-                    'rejected_examples': [('D %s %s' % (byid[i]['op'], byid[i].get('lazy', 'chain'))) for i in list(rejected)[:12]],
+                    'rejected_examples': [('D %s %s' % (byid[i]['op'], byid[i].get('lazy', 'chain'))) for i in list(rejected)[:12] if byid[i]['k'] != 'RT'],
                     'worst_observed_difference_in_units_of_eps*scale': {k: round(v, 2) for k, v in sorted(worst.items())}, 'traces_validated_against_impl': n_eval})
     rep.assumptions = ['programs the compiler rejects (missing overloads for some operand kinds) are recorded and not judged', 'the destination occurs only elementwise on the right-hand side (as the property states); D inside an operand of %/inv/... is out of scope']
     return rep.finish(proof=proof, trusted=['Coq 8.16.1 kernel (coqc)', 'lib/common.py, props/c09.py', 'harness/vh.h', 'the eager functions of the library (matmul, inverse, ...) as the reference for their lazy forms'])
